@@ -20,6 +20,14 @@ namespace c14 {
   {
     float f[16];
   };
+  // trivially destructible but NOT trivially copyable: a bitwise copy is not a copy of this type
+  struct SelfRef
+  {
+    SelfRef();
+    SelfRef(const SelfRef &other);
+    int *self;
+    int value;
+  };
 }  // namespace c14
 
 namespace rkcommon {
@@ -33,6 +41,7 @@ namespace rkcommon {
     template struct aligned_allocator<float, 16>;
     template struct aligned_allocator<int64_t, 128>;
     template struct aligned_allocator<c14::S24, 4096>;
+    template struct aligned_allocator<c14::SelfRef>;
   }  // namespace containers
   namespace memory {
     template char *alignedMalloc<char>(size_t, size_t);
